@@ -11,3 +11,5 @@ def clear():
     LOG.clear()
 
 FLAGS = {}
+
+MSGS = []
